@@ -4,7 +4,7 @@
 
    Error classes: 1 Unauthorized, 2 InvalidArgument, 3 MathOverflow, 4 ApyTooLarge, 5 ClaimDisabled,
    7 rejected by the account constraints (wrong authority), 8 position account missing (closed),
-   99 panic (i64 overflow of now - stake_start_time, overflow-checks are on). *)
+   99 unused (the i64 overflow of now - stake_start_time was repaired with abs_diff). *)
 From GV Require Import lib.Base C01.Model.
 Open Scope Z_scope.
 
@@ -24,11 +24,10 @@ Definition sat_i64 (z : Z) : Z := Z.max I64MIN (Z.min I64MAX z).
 
 Definition bucket (grad : list Z) (k : Z) : Z := nth (Z.to_nat k) grad 0.
 
-(* ---- compute_time_weighted_apy; None = arithmetic panic ---- *)
+(* ---- compute_time_weighted_apy (total; the option type is kept for the callers) ---- *)
 Definition twa (start now : Z) (grad : list Z) : option Z :=
   if now <=? start then Some (bucket grad 0) else
-  if I64MAX <? now - start then None else
-  let total := now - start in
+  let total := now - start in                    (* now.abs_diff(start): exact, cannot overflow *)
   let full := total / WEEK in
   let rem := total mod WEEK in
   let capped := Z.min full LAST in
